@@ -142,7 +142,9 @@ func GetKeystoreFromJson(keysJson []byte) (*Keystore, error) {
 // NOTE: this func will leave the masterKeyPriv derived
 func (a *AddrManager) checkPassword(passphrase []byte) error {
 	if a.unlocked {
-		saltedPassphrase := append(a.privPassphraseSalt[:],
+		// copy the salt: with an empty passphrase append would return the salt
+		// array itself and zeroing the buffer below would wipe the salt
+		saltedPassphrase := append(append(make([]byte, 0, saltSize+len(passphrase)), a.privPassphraseSalt[:]...),
 			passphrase...)
 		hashedPassphrase := sha512.Sum512(saltedPassphrase)
 		zero.Bytes(saltedPassphrase)
